@@ -447,7 +447,22 @@ def _split_multi_diags(dgs):
     return out
 
 
+EXTRA_MODULES = ["molgri.space.voronoi", "molgri.space.utils", "molgri.space.rotobj"]
+
+
 def run(ctx, repo, tier):
+    # ---------------- inherited: the direction-grid cell model itself (C03): the areas, arcs and angles that the shells scale come from it
+    from ..driver import PrefixCtx
+    from .. import voro as _voro
+    pc = PrefixCtx(ctx, "C05.", "C05.ogrid.")
+    _voro.pairwise_matrix(pc, repo, "C05", 3)
+    _voro.pair_functions(pc, repo, "C05", 3)
+    _voro.dispatch_model(pc, repo, "C05")
+    _voro.volumes_exact_3d(pc, repo, "C05")
+    _voro.getter_forwarding(pc, repo, "C05")
+    _voro.value_snapping(pc, repo, "C05")
+    _voro.one_construction(pc, repo, "C05")
+    _voro.pair_source(pc, repo, "C05")
     forward_recurrences(ctx, repo)
     where_v = "molgri/space/fullgrid.py:PositionGrid.get_all_position_volumes"
     # ---------------- volumes
